@@ -58,6 +58,9 @@ type VC struct {
 	// for replay
 	entryState  *State
 	exitState   *State
+	rootFr      *Frame
+	rootAllowed map[Sort][]Term // modifies clause of the root contract, per sort (nil: not usable)
+	rootAllowedDone bool
 	paramTerms  []Term
 	resultTerms []Term
 	strLits  map[string]Term
@@ -201,6 +204,9 @@ type State struct {
 	alloc Term
 	maps  map[string]Term // map heaps: "dom|K|V" / "val|K|V"
 	ghost map[string]Term
+	// set by mergeStates on its result: the selector constants of the merge (sel[i] <=> the
+	// i-th incoming state was the one reached), for merging values alongside the state
+	mergeSels []Term
 }
 
 func (s *State) clone() *State {
@@ -399,11 +405,21 @@ func (vc *VC) mergeStates(ins []*State) *State {
 	for _, s := range ins {
 		reaches = append(reaches, s.reach)
 	}
-	out.reach = vc.Define("reach", Or(reaches...))
+	// Selector constants: declared booleans equal to the incoming reach conditions. Merged
+	// terms branch on them, so that a solver run which fixes them (solveSplit's cubes) sees
+	// if-then-else-free heaps after unit propagation.
+	mid := vc.ordinal("merge")
+	for i := 0; i < len(ins); i++ {
+		name := fmt.Sprintf("sel!%d!%d", mid, i)
+		vc.emitf("(declare-const %s Bool)\n(assert (= %s %s))\n", name, name, ins[i].reach.S)
+		out.mergeSels = append(out.mergeSels, Term{name, SBool})
+	}
+	out.reach = vc.Define("reach", Or(out.mergeSels...))
+	sels := out.mergeSels
 	sel := func(get func(*State) Term) Term {
 		t := get(ins[len(ins)-1])
 		for i := len(ins) - 2; i >= 0; i-- {
-			t = Ite(ins[i].reach, get(ins[i]), t)
+			t = Ite(sels[i], get(ins[i]), t)
 		}
 		return t
 	}
@@ -576,6 +592,17 @@ func (vc *VC) rangeAssumption(v Term, t types.Type, alloc Term) Term {
 				c = And(c, Eq(Roff(v), IntLit(0)))
 				c = And(c, Implies(Neq(Rid(v), IntLit(0)), Eq(App(SInt, "otype", Rid(v)), IntLit(int64(vc.tt.TID(u.Elem()))))))
 				vc.assume("struct pointers entering a function (parameters, loaded or returned values) point to whole allocations: no partial overlap between objects of different struct types")
+			}
+		} else if !isAbstractTP(u.Elem()) {
+			// typed memory: a pointer to a scalar or array is never a pointer into the backing
+			// array of a slice of some other element type
+			if _, opq := vc.tt.isOpaque(u.Elem()); !opq {
+				ot := App(SInt, "otype", Rid(v))
+				alts := []Term{Ge(ot, IntLit(0)), Eq(ot, IntLit(-int64(vc.tt.TID(u.Elem()))))}
+				if a, ok := U(u.Elem()).(*types.Array); ok {
+					alts = append(alts, Eq(ot, IntLit(-int64(vc.tt.TID(a.Elem())))))
+				}
+				c = And(c, Or(alts...))
 			}
 		}
 		return c
